@@ -2,6 +2,13 @@
 import vlib
 
 def run(ctx):
+    # the interval-merge pass as an implementation-shaped spec: TLC checks it for every ordered interval list
+    # (and must find the pinned variant without the step back broken: vacuity guard, finding F7)
+    ctx.model_check("MultiMatch", "MergeScopes", "MC_merge_quick.cfg" if ctx.tier == "quick" else "MC_merge.cfg", timeout=1800)
+    r = ctx.tlc("MultiMatch", "MergeScopes", "MC_merge_pinned.cfg", workers=4, timeout=900)
+    if not any("Increasing" in e for e in r["errors"]):
+        raise vlib.Inconclusive("sanity: the invariant Increasing does not catch the pinned merge pass:\n" + r["tail"])
+    ctx.cov["sanity"] = "StepBack=FALSE (merge pass of the pinned commit): TLC reports Increasing violated after %d states" % r["distinct"]
     cfgs = ["MC_valid.cfg", "MC_bytes.cfg"] if ctx.tier == "quick" else ["MC_valid_t.cfg", "MC_bytes_t.cfg"]
     vlib.case_component(ctx, "TrieReplace", "MultiMatch", "MultiMatch", cfgs, "c05", extra_args=["-prop", "C06"], tlc_timeout=3000)
     ctx.assumptions += ["patterns are drawn from a pool of 15 patterns (shared prefixes, suffix/infix relations, 1-4 byte runes, U+FFFD) in sets of <= 2 (quick) / 3 (thorough); texts are all rune sequences over {a, b, zhong, shi} and all byte sequences over 8 bytes (incl. 0xFF and truncated runes) up to 4 / 5 symbols",
